@@ -135,6 +135,10 @@ class Run:
             print("KNOWN-FINDING: property=%s %s [%s]" % (self.prop, e.get("what", ""), key))
 
         rdir = os.path.join(ROOT, "replays", self.prop)
+        if os.path.isdir(rdir):
+            for fn in os.listdir(rdir):
+                if fn.endswith(".json"):
+                    os.unlink(os.path.join(rdir, fn))
         for sig, v in real:
             os.makedirs(rdir, exist_ok=True)
             path = os.path.join(rdir, jhash(sig) + ".json")
